@@ -63,7 +63,15 @@ for i in range(N):
             cand=c.exact_editions or c.variation_editions
             if c.edition_guess is not None and c.edition_guess not in cand: rec("C18 guess-not-cand",t)
             if len(cand)==1 and c.edition_guess is None: rec("C18 single-not-guessed",t)
-            if len(cand)>1 and c.edition_guess is not None and c.year is None: rec("C18 guess-without-year",t)
+            own = not any(isinstance(d,FullCaseCitation) and d is not c and d.full_span()[0]==c.full_span()[0] and d.span()[0]<c.span()[0] for d in cs)
+            if len(cand)>1 and c.edition_guess is not None and own:
+                if c.year is None: rec("C18 guess-without-year",t)
+                else:
+                    ok=[e for e in cand if (e.start is None or e.start.year<=c.year) and (e.end is None or e.end.year>=c.year) and c.year<=THIS]
+                    if ok!=[c.edition_guess]: rec("C18 guess-not-unique",t)
+            if len(cand)>1 and c.edition_guess is None and own and c.year is not None:
+                ok=[e for e in cand if (e.start is None or e.start.year<=c.year) and (e.end is None or e.end.year>=c.year) and c.year<=THIS]
+                if len(ok)==1: rec("C18 unique-not-guessed",t)
     ra=get_citations(t, remove_ambiguous=True)
     exp=[c for c in cs if not isinstance(c,ResourceCitation) or c.edition_guess]
     if [(type(c),c.span()) for c in ra]!=[(type(c),c.span()) for c in exp]: rec("C18 remove_ambiguous",t)
